@@ -137,3 +137,26 @@ Theorem C10_pool_no_lost_wakeup_hoisted_refuted :
             cst s = CWaiting 59 /\ gst s = GWaiting /\ words s = 0.
 Proof. exact pool_no_lost_wakeup_hoisted_refuted. Qed.
 Print Assumptions C10_pool_no_lost_wakeup_hoisted_refuted.
+
+(* (6) Word packing of an AND batch (andBatchFlush step 1 / "Set result
+   wires").  For every list of share bits of ANY length n — in particular n a
+   multiple of 64: packing it into ceil(n/64) uint64 words (the model's
+   per-word form [pack], and [pack_go], the literal transcription of the Go
+   loop over words*64 padded positions) and reading the n positions back with
+   bit() is the identity, and exactly ceil(n/64) words are produced. *)
+Theorem C10_pack_unpack_id :
+  forall bs : list bool,
+    unpack (length bs) (pack bs (words_for (length bs))) = bs /\
+    unpack (length bs) (pack_go bs (words_for (length bs))) = bs /\
+    length (pack bs (words_for (length bs))) = words_for (length bs).
+Proof. exact pack_unpack_id. Qed.
+Print Assumptions C10_pack_unpack_id.
+
+(* the last word of a batch of n > 0 gates holds n - 64*(words-1) gates:
+   between 1 and 64, and 64 (never 0) when n is a multiple of 64 *)
+Theorem C10_last_word_count :
+  forall n, 0 < n ->
+    let cnt := n - 64 * (words_for n - 1) in
+    1 <= cnt <= 64 /\ (n mod 64 = 0 -> cnt = 64).
+Proof. exact last_word_count. Qed.
+Print Assumptions C10_last_word_count.
